@@ -1,6 +1,8 @@
 import CpModel.SessionLock
 import CpProofs.C13Inv
 import CpProofs.C13NoSweep
+import CpProofs.C13Req
+import CpProofs.C13File
 /-!
   C13 — session access is mutually exclusive and the lock is always released.
 
@@ -14,6 +16,10 @@ import CpProofs.C13NoSweep
       `C13_blocked_forever_orig`, `C13_lost_update_orig`.
   * `Variant.recheck` = the repaired protocol (proposed fix): `C13_mutex_full_recheck`,
       `C13_no_lost_update`, `C13_no_release_error`, `C13_released_ram`, `C13_no_deadlock`.
+
+  Part (b): `FileSession` relative to the FileLock contract — `C13_file_mutex` (CpProofs/C13File.lean).
+  Part (c): request level — `C13_released_at_end` (CpProofs/C13Req.lean), with the local instance of
+  C09's "fail-safe hooks always run" (`close_runHooks`) and `sortByPrio_perm`.
 -/
 namespace CpProofs.C13
 open CpModel.SessionLock
@@ -160,5 +166,38 @@ theorem C13_no_deadlock (c : Option (Nat × Nat)) (tbl : Bool) (sched : List Act
       | tick d =>
         exfalso
         exact hinv.s7 _ d ho
+
+
+/-! ### request level: non-vacuity of the hypotheses of `C13_released_at_end` -/
+section
+open CpModel.SessionReq
+
+/-- a plan meeting all hypotheses: implicit locking, the handler touches the session, regenerates
+    the id and dies with an unexpected exception, an on_end_request user hook that runs before
+    `close` raises as well — the lock is held while the error page is sent and released at the end -/
+def samplePlan : Plan :=
+  { mode := .implicit, file := false, acts := [.touch, .regen], out := .exc, stream := false,
+    gen := false, genTouch := false, genRaise := false, consume := .full, saveFails := false,
+    oerOut := .ok, brb := [], bh := [], bf := [⟨10, false, .user, .ok⟩],
+    eer := [⟨10, false, .user, .exc⟩] }
+
+example : wellBehavedRun samplePlan = true ∧ wellBehaved samplePlan = true ∧
+    (runRequest samplePlan).journal = [('H', true, 1), ('B', true, 1), ('E', false, 0)] := by decide
+
+example : UserOnly samplePlan.eer ∧ UserOnly samplePlan.bf := by
+  constructor <;> (intro h hm; simp [samplePlan] at hm; subst hm; rfl)
+
+/-- streamed and abandoned: the deferred `session.save` releases at on_end_request -/
+example :
+    (runRequest { samplePlan with out := .ok, stream := true, gen := true, genTouch := true,
+                                  consume := .abandon }).journal
+      = [('H', true, 1), ('B', true, 1), ('E', false, 0)] := by decide
+
+/-- the handler's well-behavedness is really needed: a second `acquire_lock` while holding the
+    (re-entrant) RAM lock leaves it held once after the single release -/
+example :
+    (runRequest { samplePlan with acts := [.acquire], out := .ok }).held 0 = 1 := by decide
+
+end
 
 end CpProofs.C13
